@@ -59,7 +59,9 @@ Next == \/ /\ ph = "idle"
            /\ \E l \in Labels(st) : lab' = l
            /\ ph' = "chosen" /\ UNCHANGED <<st, stash>>
         \/ /\ ph = "chosen"
-           /\ \E sc \in Scripts(lab) : st' = Step(st, lab, sc)
+           \* (the self-comparison makes TLC evaluate every function constructor inside the new state: fields the VIEW
+           \* hides are otherwise never normalised, and the disk-backed state queue cannot write unevaluated ones)
+           /\ \E sc \in Scripts(lab) : st' = Step(st, lab, sc) /\ st' = st'
            /\ stash' = IF lab[1] = "save" THEN Encode(st) ELSE stash
            /\ ph' = "idle" /\ UNCHANGED lab
 
